@@ -15,8 +15,12 @@ Two harnesses on the real TransferManager code (shared fakes: engine/fakes_trans
   uploads that are active (INITIALIZING/UPLOADING, or a start task created and not yet run, or a
   cancelled transfer whose task is still alive) number at most the limit in force, one per user; a
   PeerTransferRequest only leaves for an upload that is INITIALIZING; at quiescence no eligible
-  queued upload is left while a slot is free.  The scenario also decides whether a management
-  cycle can fall between the creation of a start task and its INITIALIZING transition."""
+  queued upload is left while a slot is free.  An upload counts as active from the creation of its
+  start task on; every environment awaitable (file system, file handle, shares, network) that a
+  start task touches BEFORE it reached INITIALIZING ends at once or only after 0.12 s (choice), so
+  a change that opens a window between "slot given" and "INITIALIZING" is explored with a
+  management cycle inside that window (reach label `cycle_inside_start_window`; never reached on
+  the current code)."""
 from __future__ import annotations
 
 import asyncio
@@ -310,28 +314,32 @@ META = {
               'SharesManager -> FakeShares (every file shared with everybody, 3 bytes)',
               'UserManager.track_user / untrack_user -> no-op coroutines (tracking traffic is C15)',
               'time.monotonic / time.time in aioslsk.transfer.manager and .model -> virtual clock of the loop',
-              'aiofiles.open in aioslsk.transfer.manager -> in-memory handle',
+              'aiofiles.open in aioslsk.transfer.manager -> in-memory handle; asyncos (aiofiles.os) in aioslsk.transfer.manager -> FakeFS (every file exists, 3 bytes)',
+              'every awaitable of these fakes goes through a latency hook: instant, except that a call made by an upload start task before INITIALIZING is '
+              'split into instant / 0.12 s (first 3 such calls per path)',
               'list in aioslsk.transfer.manager -> list subclass that merges the outcomes of a symbolic slice bound (while exploring only)',
               'step only: Transfer.state -> object exposing VALUE as a lazily forking symbolic enum (real state classes in replay); '
               'settings.users.friends -> container whose membership test returns a symbolic Bool; upload_slots written past pydantic validation',
               'asyncio event loop -> engine.vloop.VLoop subclass recording which coroutine/transfer each task was created for',
               'progress reporting task not started (only the management BackgroundTask runs)'],
     'data_variables': ['upload_slots 0..4 (Int; 0..8 in two thorough jobs)', 'new limit on a limit change 0..4 (Int)',
-                       'friend, privileged per user (Bool)', 'finished-task-still-in-slot per queued upload (Bool)',
+                       'friend, privileged per user (Bool)', 'per queued upload: unfinished previous task in the slot / finished task still in the slot (Bool)',
                        'user status (index into UNKNOWN/OFFLINE/ONLINE/AWAY, Int) and transfer state (index into the 8/9 states valid for the direction, Int): '
                        'symbolic, split lazily by the comparisons the code performs'],
     'discriminants': ['number, direction and owner pattern of the transfers (job parameters; owner patterns up to renaming of users)',
-                      'scenario: event kinds, their targets, the gap between events (same instant / after ready callbacks / after the manager settled)'],
-    'bounds': {'quick': {'step_shapes': 'U, D, UU (same/different user), UD (same/different), DU, UUU with owners 0,0,1 and 0,1,0 (3 statuses) and 0,1,2 (UNKNOWN/OFFLINE only)',
+                      'scenario: event kinds, their targets, the gap between events (same instant / after ready callbacks / after the manager settled), '
+                      'instant / slow for environment calls made before INITIALIZING'],
+    'bounds': {'quick': {'step_shapes': 'U, D, UU (same/different user; plus different users with the unfinished-task flag, UNKNOWN/OFFLINE only), UD (same/different), DU, UUU with owners 0,0,1 and 0,1,0 (3 statuses) and 0,1,2 (UNKNOWN/OFFLINE only)',
                          'upload_slots': '0..4', 'scenario_initial_uploads': '3 (owners 0,1,2; owners 0,0,1 for three first events)',
                          'scenario_events': 2},
-               'thorough': {'step_shapes': 'all shapes of <= 2 transfers; UUU with all 5 owner patterns (4 statuses, stale handles); UUD/UDU/DUU x 4 owner '
+               'thorough': {'step_shapes': 'all shapes of <= 2 transfers (with the unfinished-task flag); UUU with all 5 owner patterns (4 statuses, stale handles; and with the unfinished-task flag, 2 statuses); UUD/UDU/DUU x 4 owner '
                                            'patterns; UUUU x all 2-user patterns and one 3-user pattern; UUUD; UUUUU of one user',
                             'upload_slots': '0..4, and 0..8 for UU / UUU', 'scenario_initial_uploads': '3 (owners 0,1,2 and 0,0,1)', 'scenario_events': 3}},
     'outside': ['more transfers / events than the bound', 'fairness among users of equal priority (the code serves the latest queued first; the property allows any order)',
                 'peer send failures and slow connects inside the C05 scenario (they are C06\'s scenario)', 'real connection and file transfer code (C04, C10/C11)',
                 'user status changes while uploads are active (status is part of the arbitrary pre-state of the step harness only)',
-                'a queued upload whose task slot is occupied by an unfinished task (C06 decides that it is not started; C05 treats its user as "don\'t care")'],
+                'whether a queued upload whose task slot is occupied by an unfinished task is itself started (C06 decides: it is not); in C05 its user is "don\'t care" '
+                'on the must-be-served side, but it must not keep a slot from another startable user'],
     'assumptions': ['asyncio Task/Future/Queue/Lock semantics of CPython 3.12 (FIFO ready queue)',
                     'an upload counts as active while INITIALIZING/UPLOADING, while its start task exists and has not run, or while a task of a cancelled upload is still alive'],
 }
